@@ -97,8 +97,15 @@ def r1_pairing(run, w):
   own = {f.qualname: t for ((a, t), f) in w.override_methods().items()}
   emitters = set()
   exc_callers = 0
+  WRITER_METHODS = ("doBulkRemoveRecord", "doBulkUpdateFromPairs", "doBulkUpdateRecord", "add",
+                    "insert", "insert_after", "update", "remove")
+  is_writer = lambda c, nm, f: isinstance(c.func, ast.Attribute) and c.func.attr in WRITER_METHODS
   for fi in w.repo.all_functions():
-    fn = w.fn_of(fi)
+    in_cls = fi.cls is not None and fi.cls.qualname in ("useractions.UserActions",
+                                                        "summary.SummaryActions")
+    # private helpers that exist for one function only are read in place (in their caller)
+    fn = H.inlined_fn(w, fi.qualname) if in_cls and fi.parent is None else w.fn_of(fi)
+    part_of = H.is_private_part(w, fi)[1] if in_cls else None
     sites = []      # (node, kind, construct)
     du = None
     for (n, c) in H.gateway_sites(fn):
@@ -137,6 +144,14 @@ def r1_pairing(run, w):
           if unknown:
             raise AnalysisError("%s: cannot tell which metadata table %s writes"
                                 % (fi.qualname, short(unknown[0])))
+          if part_of is not None:
+            raise AnalysisError("%s is a private part of %s that could not be read in place; the "
+                                "metadata %s of %s may be its caller's" % (fi.qualname, part_of,
+                                                                          kind, table))
+          if not W and H.hidden_in_callees(w, fn, is_writer):
+            raise AnalysisError("%s: no metadata %s of %s in the function itself, but a helper "
+                                "it calls writes metadata; cannot follow" % (fi.qualname, kind,
+                                                                            table))
           p1 = cfg.path(cfg.entry.id, {n.id}, removed=W) or []
           p2 = cfg.path(n.id, {cfg.exit.id}, removed=W, after=True) or []
           wit = cfg.describe_path(p1 + p2[1:]) if p1 and p2 else "no %s of %s in this function" \
@@ -254,7 +269,8 @@ def r2_field_sets(run, w):
          "the schema properties forwarded to ModifyColumn are exactly SchemaColumn's fields "
          "other than colId", mprops == set(props), witness="SchemaColumn fields: %s" % fields)
   # (b) DocActions.ModifyColumn builds the new SchemaColumn positionally from col_info.get(f, old.f)
-  mc = w.fn("docactions.DocActions.ModifyColumn")
+  # (a module-level or private helper that only ModifyColumn uses is read in place)
+  mc = H.inlined_fn(w, "docactions.DocActions.ModifyColumn")
   ps = mc.fi.params()
   p_col, p_info = ps[2], ps[3]
   def by_field(call):
@@ -289,7 +305,10 @@ def r2_field_sets(run, w):
         isinstance(a.args[1], ast.Attribute) and a.args[1].attr == f and \
         isinstance(a.args[1].value, ast.Name)
     if ok:
-      oldvars.add(a.args[1].value.id)
+      ov = a.args[1].value
+      while isinstance(H.alias_value(mc, ov.id), ast.Name):     # plain copies of the old column
+        ov = H.alias_value(mc, ov.id)
+      oldvars.add(ov.id)
     run.ob(R2, mc.qualname, "%s <- %s" % (f, short(a)),
            "field %s is taken from col_info[%r], defaulting to the old column's own %s"
            % (f, f, f), ok, fi=mc.fi, node=a)
@@ -620,7 +639,7 @@ def r3_rebuild_and_assert(run, w):
          "assert_schema_consistent()", "after a rollback the schema is compared with the metadata "
          "again", ok, fi=fn.fi)
   # assert_schema_consistent compares Engine.schema with build_schema(metadata) and checks strays
-  ac = w.fn("engine.Engine.assert_schema_consistent")
+  ac = H.inlined_fn(w, "engine.Engine.assert_schema_consistent")
   du = DefUse(ac)
   bsc = [c for (n, c, nm) in ac.calls() if endswith(nm, "schema.build_schema")]
   fetched = {}
